@@ -142,6 +142,27 @@ def run(ctx):
     flows_.append(make_req(cert_mode=0o600, pk_mode=0o640, phase2={"cert_file_mode": 0o644, "pk_file_mode": 0o600}))
     if root:
         flows_.append(make_req(owners={"pk_file_user": "nobody"}, phase2={"pk_file_user": "daemon", "pk_file_group": "nogroup"}))
+    # no [global] table at all: the built-in defaults must apply (load only: the default directories are system paths)
+    for extra_g in (None, {}, {"cert_file_mode": 0o640}, {"pk_file_mode": 0o640}):
+        doc = cfg.base_doc(cert_extra={"directory": "@DIR@/certs"})
+        del doc["global"]
+        if extra_g is not None:
+            doc["global"] = dict({"accounts_directory": "@DIR@/accounts"}, **extra_g)
+        q = {"op": "scenario", "cas": [{}], "files": {"main.toml": cfg.to_toml(doc)}, "phases": [{"mode": "load"}], "script": [],
+             "meta": {"defaults_case": "no-global" if extra_g is None else ("global:" + ",".join(sorted(extra_g)) or "empty-global"),
+                      "want": [(extra_g or {}).get("cert_file_mode", 0o644), (extra_g or {}).get("pk_file_mode", 0o600)]}}
+        o = ctx.pool.call(q, 60.0)
+        e1.check_obs(o)
+        res.evaluations += 1
+        res.outcomes["defaults:%s" % q["meta"]["defaults_case"]] += 1
+        ph = o["phases"][0]
+        if ph.get("new") != "ok":
+            res.violation("load", "C13|load|%s" % q["meta"]["defaults_case"], "the configuration loads", str(ph.get("new"))[:200], replay=q)
+            continue
+        c = ph["parts"]["certificates"][0]
+        if [c["cert_file_mode"], c["pk_file_mode"]] != q["meta"]["want"]:
+            res.violation("mode", "C13|mode|defaults|%s" % q["meta"]["defaults_case"], "cert_file_mode %o and pk_file_mode %o in force" % tuple(q["meta"]["want"]),
+                          "%o / %o" % (c["cert_file_mode"], c["pk_file_mode"]), replay=q)
     obs = e1.run_all(ctx.pool, flows_, 120.0)
     for r, o in zip(flows_, obs):
         e1.check_obs(o)
@@ -166,6 +187,12 @@ def run(ctx):
 
 def replay(ctx, rp):
     req = rp["request"]
+    if "defaults_case" in req.get("meta", {}):
+        o = ctx.pool.call(req, 60.0)
+        c = o["phases"][0].get("parts", {}).get("certificates", [{}])[0]
+        if [c.get("cert_file_mode"), c.get("pk_file_mode")] != req["meta"]["want"]:
+            return [{"oracle": "mode", "signature": rp["signature"], "expected": rp["expected"], "observed": "%s / %s" % (c.get("cert_file_mode"), c.get("pk_file_mode"))}]
+        return []
     if req.get("op") == "c13_modes":
         o = ctx.pool.call(req, 600.0)
         return [{"oracle": "mode", "signature": "C13|mode|%s|storage" % b["file"], "expected": rp["expected"], "observed": str(b)} for b in o.get("bad", [])]
